@@ -297,6 +297,9 @@ def rewrite_body(body, mode, stats):
     body = apply_counted(r'bucket_read\(\s*([\w.]+)\s*,\s*(KEY_\w+)\s*\)\s*\.load\(', r'bucket_load__\2(\1, ', body, stats, 'R11_storage_prim')
     body = apply_counted(r'bucket\(\s*([\w.]+)\s*,\s*(KEY_\w+)\s*\)\s*\.save\(', r'bucket_save__\2(\1, ', body, stats, 'R11_storage_prim')
     body = apply_counted(r'let\s+mut\s+store\s*:\s*Singleton<\w+>\s*=\s*singleton\(\s*(\w+)\s*,\s*(KEY_\w+)\s*\)\s*;\s*store\.remove\(\)', r'singleton_remove__\2(\1)', body, stats, 'R11_storage_prim')
+    # R11: cw_storage_plus Item / Map constants
+    body = apply_counted(r'\b([A-Z][A-Z_]+)\.may_load\(', r'item_may_load__\1(', body, stats, 'R11_storage_prim')
+    body = apply_counted(r'\b([A-Z][A-Z_]+)\.save\(', r'item_save__\1(', body, stats, 'R11_storage_prim')
     # R9: unwrap -> unwrap_or_abort (partial mode)
     if mode == 'partial':
         body = apply_counted(r'\.unwrap\(\)', '.unwrap_or_abort()', body, stats, 'R9_unwrap')
@@ -519,7 +522,7 @@ def process_fn(unit, lines, i, arg, rel_tpl):
         elif s.startswith('//@rename'):
             renames.update(dict(p.split('=') for p in s.split()[1:]))
         elif s.startswith('//@sub'):
-            old, new = s[len('//@sub'):].split('==>')
+            old, new = s[len('//@sub'):].split(' ==> ', 1)
             subs.append((old.strip(), new.strip()))
         elif s.startswith('//@'):
             raise AssembleError('unknown fn directive %s at %s:%d' % (s, rel_tpl, j + 1))
